@@ -184,3 +184,14 @@ Theorem C07_hypotheses_satisfiable : exists d fs ts,
   st_links_total (measure_statistic fs d) = 1 /\ st_ops_selected (measure_statistic fs d) = 2.
 Proof. exact links_partial_nonvacuous. Qed.
 Print Assumptions C07_hypotheses_satisfiable.
+
+(* command line: the filter set built by FilterArguments.into() selects an operation iff (there is no include
+   option or some include filter of the option list matches) and no exclude filter matches, where the filters are
+   those of the calls made by into() in order (include regexes: one conjunctive filter) *)
+Theorem C07_cli_into_spec : forall a fs c,
+  cli_into a = CliOk fs ->
+  (fs_match fs c = true <->
+   (calls_filters true (cli_calls a) = [] \/ exists f, In f (calls_filters true (cli_calls a)) /\ filter_matches f c) /\
+   (forall f, In f (calls_filters false (cli_calls a)) -> ~ filter_matches f c)).
+Proof. exact cli_into_spec. Qed.
+Print Assumptions C07_cli_into_spec.
